@@ -1,0 +1,42 @@
+// Verification-only event sink (compiled only with `--cfg peginator_verif`).
+//
+// Records every cursor advance and every reported match failure of the current
+// thread, so that an external harness can check them against a specification.
+// Nothing is recorded unless `install()` was called on this thread.
+
+use std::cell::RefCell;
+
+#[derive(Debug, Clone, PartialEq, Eq)]
+pub enum VerifEvent {
+    /// `ParseState::advance` (checked = false) or `advance_safe` (checked = true)
+    Advance {
+        from: usize,
+        len: usize,
+        checked: bool,
+    },
+    /// `ParseState::report_error`: a match attempt failed at `pos`
+    Fail { pos: usize, kind: String },
+}
+
+thread_local! {
+    static SINK: RefCell<Option<Vec<VerifEvent>>> = const { RefCell::new(None) };
+}
+
+/// Start recording on this thread (drops anything recorded before).
+pub fn install() {
+    SINK.with(|s| *s.borrow_mut() = Some(Vec::new()));
+}
+
+/// Stop recording on this thread and return what was recorded.
+pub fn take() -> Vec<VerifEvent> {
+    SINK.with(|s| s.borrow_mut().take().unwrap_or_default())
+}
+
+#[inline]
+pub(crate) fn emit(ev: impl FnOnce() -> VerifEvent) {
+    SINK.with(|s| {
+        if let Some(v) = s.borrow_mut().as_mut() {
+            v.push(ev());
+        }
+    });
+}
